@@ -186,6 +186,34 @@ func checkO7(c *Ctx, r *Report) {
 					strict = true
 				}
 			})
+			// the decoder comes from a module factory that makes it strict on
+			// every path before handing it back
+			if dc, isCall := dec.(*ssa.Call); isCall && !strict {
+				if sc := dc.Call.StaticCallee(); sc != nil && c.isModuleFunc(sc) && len(sc.Blocks) > 0 {
+					all, n := true, 0
+					for _, b := range sc.Blocks {
+						ret, isRet := b.Instrs[len(b.Instrs)-1].(*ssa.Return)
+						if !isRet || len(ret.Results) != 1 {
+							continue
+						}
+						n++
+						made := false
+						forEachInstr(sc, func(i2 ssa.Instruction) {
+							kf, ok := i2.(*ssa.Call)
+							if !ok || !calleeIs(kf, yamlPath, "Decoder", "KnownFields") || kf.Call.Args[0] != ret.Results[0] {
+								return
+							}
+							if k, ok := kf.Call.Args[1].(*ssa.Const); ok && k.Value != nil && k.Value.ExactString() == "true" && instrDominates(kf, ret) {
+								made = true
+							}
+						})
+						if !made {
+							all = false
+						}
+					}
+					strict = all && n > 0
+				}
+			}
 			r.Check(strict, "O7-strict", construct, c.instrPos(call), "KnownFields(true) must be called on the same decoder on every path before Decode; otherwise unknown keys are silently ignored")
 			// what the strict decoder reports is what the parser reports: its
 			// error is tested and returned as it is (or wrapped), not handed
